@@ -42,6 +42,9 @@ type ioAnalysis struct {
 	c      *Ctx
 	inE    map[*ssa.Function]bool
 	reason map[*ssa.Function]string
+	// consult: conditions whose test is a consultation of the error under inspection although they
+	// are not computed from it: a boolean result of the same call that announces the error (ext_x7.go)
+	consult map[ssa.Value]bool
 }
 
 var ioSourceFuncs = map[string]bool{
@@ -143,6 +146,14 @@ func (a *ioAnalysis) derives(v ssa.Value, seen map[ssa.Value]bool) (string, bool
 	case *ssa.Call:
 		if d, ok := a.ioCall(x); ok {
 			return d, true
+		}
+		// a module function that hands back an error it was given (`return h.finish(err)`)
+		for _, i := range errPassThrough(x.Common().StaticCallee()) {
+			if i < len(x.Common().Args) {
+				if d, ok := a.derives(x.Common().Args[i], seen); ok {
+					return d, true
+				}
+			}
 		}
 		// wrapping
 		if sc := x.Common().StaticCallee(); sc != nil && (calleeName(sc) == "fmt.Errorf") {
@@ -319,6 +330,21 @@ func (a *ioAnalysis) propagates(e ssa.Value, seen map[ssa.Value]bool) (bool, str
 					}
 				}
 			}
+		case *ssa.Call:
+			// handed to a module function that passes it on: the parameter has a propagating use
+			// in the callee, and what the callee returns has one here (`return h.finish(err)`)
+			if g := r.Call.StaticCallee(); g != nil && a.c.inModule(g) && len(g.Blocks) > 0 && errIndex(g.Signature) >= 0 {
+				for i, arg := range r.Call.Args {
+					if arg != e || i >= len(g.Params) {
+						continue
+					}
+					if okIn, _ := a.propagates(g.Params[i], seen); okIn && a.untestedPath(g.Params[i], g.Blocks[0].Instrs[0]) == "" {
+						if okOut, how := a.propagates(r, seen); okOut {
+							return true, "passed through " + a.c.fname(g) + " and " + how
+						}
+					}
+				}
+			}
 		case *ssa.Phi:
 			if ok, how := a.propagates(r, seen); ok {
 				return true, how
@@ -477,6 +503,7 @@ func runC13(c *Ctx) {
 				return
 			}
 			nSites++
+			a.consult = nil
 			construct := "error of " + desc
 			com := call.Common()
 			// the run's result in Execute is mapped by a decision table (signals become nil /
@@ -564,6 +591,30 @@ func runC13(c *Ctx) {
 							continue
 						}
 						c.fail("IO-FLOW", fname, construct, ins.Pos(), "after `err != nil` for "+desc+" a path rejoins normal flow without returning the error: "+w)
+						return
+					}
+				}
+			}
+			// a boolean result of the same call that is set whenever the error is (`done, err := f()`):
+			// a branch on it is a test of the error, and the edge on which it announces an error is
+			// held to the region rule
+			a.consult = map[ssa.Value]bool{}
+			for fl, pol := range a.errFlagsOf(call) {
+				ifs, edges := flagBranches(fl, pol)
+				for i, ifi := range ifs {
+					start := ifi.Block().Succs[edges[i]]
+					if len(start.Preds) != 1 {
+						continue // shared block: cannot attribute; the branch does not count as a test either
+					}
+					if nilTestDominates(e, ifi.Block()) {
+						continue // the error itself was compared with nil before: that test is held to the region rule
+					}
+					a.consult[ifi.Cond] = true
+					if onScanner {
+						continue
+					}
+					if w := a.swallowPath(e, start, ifi.Block()); w != "" {
+						c.fail("IO-FLOW", fname, construct, ins.Pos(), "after the test of the result that announces the error of "+desc+" a path rejoins normal flow without returning the error: "+w)
 						return
 					}
 				}
@@ -818,17 +869,25 @@ func (c *Ctx) registrationLast() {
 	c.check(len(codeMapWriters) == 1 && codeMapWriters[0] == c.fname(endcmap), "IO-REGISTER", "CodeMap", "stored only by endcmap", endcmap.Pos(), strings.Join(codeMapWriters, ","), "the CodeMap entry is stored by "+strings.Join(codeMapWriters, ", ")+", not only by endcmap: a truncated CMap could be registered")
 	// defineresource for CMap requires a *CMapInfo under CodeMap
 	dr := reg.op("systemdict", "defineresource")
-	okCM := false
-	eachInstr(dr, func(ins ssa.Instruction) {
-		if ta, ok := ins.(*ssa.TypeAssert); ok && ta.CommaOk {
-			if p, ok := ta.AssertedType.(*types.Pointer); ok {
-				if n, ok := p.Elem().(*types.Named); ok && n.Obj().Name() == "CMapInfo" {
-					okCM = true
+	// decided on the evaluator (ext_x7.go): defineresource is evaluated for category CMap on an instance
+	// that is no dictionary, one without CodeMap, one whose CodeMap is not a *CMapInfo, and a complete
+	// one (helpers evaluated in place); the search for the assertion only if an evaluation stops
+	if bad, decided, why := c.defineCMapByEvaluation(dr); decided {
+		c.check(len(bad) == 0, "IO-REGISTER", c.fname(dr), "CMap instances must carry a *CMapInfo", dr.Pos(), "4 cells evaluated: kind of instance × CodeMap entry", "defineresource no longer demands a complete CodeMap (*CMapInfo) for category CMap: "+joinMax(bad, 2))
+	} else {
+		c.note("IO-REGISTER: the evaluation of defineresource stops (%s); looking for the assertion to *CMapInfo", why)
+		okCM := false
+		eachInstr(dr, func(ins ssa.Instruction) {
+			if ta, ok := ins.(*ssa.TypeAssert); ok && ta.CommaOk {
+				if p, ok := ta.AssertedType.(*types.Pointer); ok {
+					if n, ok := p.Elem().(*types.Named); ok && n.Obj().Name() == "CMapInfo" {
+						okCM = true
+					}
 				}
 			}
-		}
-	})
-	c.check(okCM, "IO-REGISTER", c.fname(dr), "CMap instances must carry a *CMapInfo", dr.Pos(), "type assertion to *CMapInfo", "defineresource no longer demands a complete CodeMap (*CMapInfo) for category CMap")
+		})
+		c.check(okCM, "IO-REGISTER", c.fname(dr), "CMap instances must carry a *CMapInfo", dr.Pos(), "type assertion to *CMapInfo", "defineresource no longer demands a complete CodeMap (*CMapInfo) for category CMap")
+	}
 	// type1.Read: exactly one font
 	rd := c.fn("type1", "Read")
 	okOne := false
@@ -922,6 +981,9 @@ func (c *Ctx) useBeforeCheck(a *ioAnalysis) {
 			if v == nil || e == nil {
 				return
 			}
+			if _, isFlag := a.errFlagsOf(call)[v]; isFlag {
+				return // the value announces the error itself (set whenever the error is): testing it is testing the error
+			}
 			// branches that depend on v
 			seen := map[ssa.Value]bool{}
 			var ifs []*ssa.If
@@ -984,7 +1046,20 @@ func isErrorType(t types.Type) bool {
 	return ok && n.Obj().Pkg() == nil && n.Obj().Name() == "error"
 }
 
-// eofImplied: the boolean v can be true only if e equals an EOF sentinel.
+// eofHoldsIn: block b is entered only over an edge on which e equals an EOF sentinel (the test
+// `e == io.EOF` / `e == io.ErrUnexpectedEOF` dominates it with that outcome).
+func eofHoldsIn(b *ssa.BasicBlock, e ssa.Value) bool {
+	for _, cd := range domConds(b) {
+		if m, ok := asCmp(cd); ok && m.op == token.EQL && (origin(m.x) == e || m.x == e || origin(m.y) == e || m.y == e) && (isEOFGlobal(m.x) || isEOFGlobal(m.y)) {
+			return true
+		}
+	}
+	return false
+}
+
+// eofImplied: the boolean v can be true only if e equals an EOF sentinel (the comparison itself, or
+// an && chain that contains it in any position: every edge of the phi that does not carry `false`
+// is the comparison or comes from a block in which it has been found true).
 func eofImplied(v, e ssa.Value, depth int) bool {
 	if depth > 6 {
 		return false
@@ -996,11 +1071,11 @@ func eofImplied(v, e ssa.Value, depth int) bool {
 		}
 	case *ssa.Phi:
 		any := false
-		for _, ed := range x.Edges {
+		for i, ed := range x.Edges {
 			if k, ok := ed.(*ssa.Const); ok && k.Value != nil && k.Value.String() == "false" {
 				continue
 			}
-			if !eofImplied(ed, e, depth+1) {
+			if !eofImplied(ed, e, depth+1) && !(i < len(x.Block().Preds) && eofHoldsIn(x.Block().Preds[i], e)) {
 				return false
 			}
 			any = true
